@@ -103,6 +103,11 @@ var stmtFaults = []stmtFault{
 	{"toomany", " f1(1, 2)§", "false", true, false},
 	{"fieldmissing", " d.Nofield = 1§", "false", true, false},
 	{"strkeyslice", " y = d.SL[\"k\"]§", "false", true, false},
+	// calls spanning several lines: the position is the line the call starts on
+	{"mlmethod", " np.PM(§\n  1\n )", "!npnil", true, false},
+	{"mlmethodassign", " y = np.PM(§\n  1\n )", "!npnil", true, false},
+	{"mlfunc", " f1(§\n  1,\n  2\n )", "false", true, false},
+	{"ml3", " d.P.Get(§\n  1\n )", "!pnil", true, false},
 	// a return whose value cannot be handed out (unexported field); a forRange whose body grows the ranged slice
 	{"retunexported", " return d.hidden§", "false", false, false},
 	{"rangegrow", " forRange k := qq.Items {§\n  qq.Push(k)\n }", "true", false, false},
@@ -554,7 +559,7 @@ func genC20(tier string, seed int64) (*Family, error) {
 		"citations are every 'line N, column' occurrence in the error text; the embedded Go stack trace cannot match that pattern",
 		"must-cite classes: arithmetic, comparison and logic type faults, failing calls, failing assignments",
 	}
-	fam.Outside = []string{"constructs spanning several lines", "column numbers"}
+	fam.Outside = []string{"column numbers", "which line is cited for constructs spanning several lines other than calls (an assignment whose failing operand sits on a later line is cited with both lines)"}
 	var b strings.Builder
 	for _, fc := range allFaultCases("thorough") {
 		if fc.hang {
